@@ -266,7 +266,29 @@ var acceptProp = vp.Register(vp.Prop[AcceptCase]{
 				canon = model.CanonARPA6(a.As16())
 			}
 			ls := strings.Split(canon, ".")
-			switch rapid.IntRange(0, 5).Draw(t, "mut") {
+			switch rapid.IntRange(0, 6).Draw(t, "mut") {
+			case 6:
+				// Two separators replaced at once by bytes mirrored around
+				// '.': neighbouring ones (often both separators of one
+				// four-byte group) or two arbitrary ones.
+				b := []byte(canon)
+				var dots []int
+				for i, c := range b {
+					if c == '.' {
+						dots = append(dots, i)
+					}
+				}
+				i := rapid.IntRange(0, len(dots)-2).Draw(t, "dot1")
+				j := i + 1
+				if rapid.IntRange(0, 3).Draw(t, "far") == 0 {
+					j = rapid.IntRange(i+1, len(dots)-1).Draw(t, "dot2")
+				}
+				k := byte(rapid.SampledFrom([]int{1, 1, 2, 3, 14, 46}).Draw(t, "k"))
+				b[dots[i]], b[dots[j]] = '.'-k, '.'+k
+				if rapid.Bool().Draw(t, "swap") {
+					b[dots[i]], b[dots[j]] = '.'+k, '.'-k
+				}
+				return AcceptCase{S: vp.S(string(b))}
 			case 0:
 				i := rapid.IntRange(0, len(ls)-1).Draw(t, "i")
 				ls[i] = gen.Label().Draw(t, "l")
